@@ -168,6 +168,56 @@ def download(sl):
             observe("a received body is rejected only for a size mismatch, with DataError", isinstance(err, exceptions.DataError))
 
 
+class HardKill(BaseException):
+    """the process is killed while a transfer is writing (no handler of the code under test runs)"""
+
+
+def download_bucket(sl):
+    """net.download from s3:// / gs:// buckets: the blob store client writes to whatever path it is given; the transfer may complete, fail
+    with an error, or the process may be killed after part of the data has been written"""
+    fs = SymFS()
+    final = "/data/corpus/documents.json.bz2"
+    before_exists = bool(fresh_bool("final_exists_before"))
+    before_size = fresh_int("final_size_before", 0) if before_exists else None
+    if before_exists:
+        fs.files[final] = before_size
+    expected = fresh_int("expected_size", 0) if bool(fresh_bool("expected_size_known")) else None
+    scheme = sl["scheme"]
+    outcome = ["complete", "client error", "killed while writing"][concrete(fresh_int("transfer_outcome", 0, 2))]
+    written = []
+
+    def blob_client(bucket, bucket_path, local_path, expected_size_in_bytes=None, progress_indicator=None):
+        written.append(local_path)
+        fs.files[local_path] = fresh_int("bytes_written", 0)
+        if outcome == "client error":
+            raise RuntimeError("AccessDenied")
+        if outcome == "killed while writing":
+            raise HardKill()
+
+    with shadowed(net, (), extra={"os": fs.os_ns(), "_download_from_s3_bucket": blob_client, "_download_from_gcs_bucket": blob_client}):
+        try:
+            net.download("%s://bucket/corpus/documents.json.bz2" % scheme, final, expected)
+            how, err = "ret", None
+        except HardKill as e:
+            how, err = "killed", e
+        except BaseException as e:  # noqa: BLE001
+            if type(e).__name__ in ("PathAbort",):
+                raise
+            how, err = "raise", e
+    core.note("outcome", (outcome, how, repr(err)[:80]))
+    core.trace("how", how)
+    observe("the transfer is attempted once", len(written) == 1)
+    if how == "ret":
+        observe("on return the file exists under the final name", final in fs.files)
+        if expected is not None and final in fs.files:
+            observe("on return the file has the expected size", fs.files[final] == expected)
+    else:
+        observe("a failed or killed download never leaves a partial file under the final name (the final name is exactly as it was)",
+                ((final in fs.files) == before_exists) and (not before_exists or fs.files[final] is before_size))
+    if how == "raise":
+        observe("no temporary file is left behind by a handled failure", final + ".tmp" not in fs.files)
+
+
 _REAL = {"download_http": net.download_http}
 
 
@@ -355,6 +405,56 @@ def prepare_docs_roots(sl):
         observe("failure is an explicit data / set-up error", isinstance(err, (exceptions.DataError, exceptions.SystemSetupError)))
 
 
+def used_corpora_union(sl):
+    """loader.used_corpora with the real bulk parameter sources: every corpus (and document set) that any bulk task of the selected challenge
+    targets is prepared - also when several tasks use inline operations of the same (default) name"""
+    from esrally.track import params as tparams
+
+    def docs(name, idx):
+        return track.Documents("bulk", document_file="%s.json" % name, number_of_documents=10, target_index=idx)
+
+    corpus_a = track.DocumentCorpus("A", documents=[docs("a1", "idx1"), docs("a2", "idx2")])
+    corpus_b = track.DocumentCorpus("B", documents=[docs("b1", "idx1")])
+    corpus_c = track.DocumentCorpus("C", documents=[docs("c1", "idx3")])
+    choices = [["A"], ["B"], ["A", "B"], ["C"]]
+    n_tasks = sl["tasks"]
+    same_name = bool(fresh_bool("inline_operations_share_the_default_name"))
+    picks = [choices[concrete(fresh_int("corpora_of_task_%d" % i, 0, len(choices) - 1))] for i in range(n_tasks)]
+    idx_filter = [bool(fresh_bool("task_%d_only_targets_idx1" % i)) for i in range(n_tasks)]
+    tasks = []
+    for i, pick in enumerate(picks):
+        prm = {"bulk-size": 5, "corpora": list(pick)}
+        if idx_filter[i]:
+            prm["indices"] = ["idx1"]
+        op = track.Operation("bulk" if same_name else "bulk-%d" % i, "bulk", params=prm)
+        tasks.append(track.Task("task-%d" % i, op))
+    schedule = [tasks[0]] + ([track.Parallel(tasks[1:])] if len(tasks) > 1 else [])
+    other = track.Challenge("other", schedule=[track.Task("t", track.Operation("other-bulk", "bulk", params={"bulk-size": 5, "corpora": ["C"]}))])
+    ch = track.Challenge("selected", schedule=schedule, default=True, selected=True)
+    trk = track.Track("t", corpora=[corpus_a, corpus_b, corpus_c], challenges=[other, ch], indices=[track.Index("idx1"), track.Index("idx2"), track.Index("idx3")])
+    try:
+        got = list(loader.used_corpora(trk))
+    except Exception as e:  # noqa: BLE001 - e.g. a filter that leaves nothing is the parameter source's own error, not this harness's subject
+        core.note("used_corpora raised", repr(e))
+        core.trace("raised", True)
+        observe("only an explicit error (a bulk operation whose filters leave no documents) may stop the computation", isinstance(e, exceptions.RallyError))
+        return
+    core.trace("corpora", len(got))
+    need = {}
+    for pick, only1 in zip(picks, idx_filter):
+        for cname in pick:
+            corp = {"A": corpus_a, "B": corpus_b, "C": corpus_c}[cname]
+            for d in corp.documents:
+                if not only1 or d.target_index == "idx1":
+                    need.setdefault(cname, set()).add(d.document_file)
+    have = {c.name: {d.document_file for d in c.documents} for c in got}
+    core.note("needed", {k: sorted(v) for k, v in need.items()})
+    core.note("prepared", {k: sorted(v) for k, v in have.items()})
+    observe("every document file a task of the selected challenge needs is among the corpora to prepare",
+            all(cname in have and files <= have[cname] for cname, files in need.items()))
+    observe("corpora only used by other challenges are not required (no unrelated downloads)", set(have) <= set(need))
+
+
 def bundled(sl):
     """prepare_bundled_document_set: files next to the track"""
     fs = SymFS()
@@ -528,6 +628,9 @@ HARNESSES = [
             bounds={"attempt outcomes": "all sequences of <=2 (3) symbolic outcomes; 1..10 retryable faults (shared class) followed by a symbolic outcome",
                     "sizes": "unbounded integers", "initial state": "final name absent/present, stale .tmp absent/present, expected size known/unknown"},
             doc="download never leaves a partial file under the final name; retry budget; size verification"),
+    Harness("download_bucket", download_bucket, "symbolic", lambda tier: [{"scheme": "s3"}, {"scheme": "gs"}], reads=READS + [net.download_from_bucket],
+            stubs=FS_STUB + ["blob store clients (_download_from_s3_bucket / _download_from_gcs_bucket) write a symbolic number of bytes to the path they are given"],
+            bounds={"outcome": "complete / client error / process killed while writing", "sizes": "symbolic"}, doc="bucket downloads never expose a partial file under the final name"),
     Harness("prepare_loop", prepare_loop, "symbolic", lambda tier: [{"compressed": c} for c in (True, False)], reads=READS,
             stubs=FS_STUB + ["net.download: returns with the final file present (expected size if known, arbitrary otherwise) or raises HTTPError/URLError/DataError",
                              "io.decompress: creates the document file with an arbitrary size, raises, or creates nothing", "io.prepare_file_offset_table: returns None, the declared or another line count"],
@@ -538,6 +641,10 @@ HARNESSES = [
             stubs=FS_STUB + ["net.download (postcondition of harness `download`)", "io.prepare_file_offset_table recorder"],
             bounds={"candidate roots": "track directory then corpus cache, file present or absent in each with a symbolic size", "declared size": "symbolic"},
             doc="track given by path: the file resolved for reading is the verified one"),
+    Harness("used_corpora_union", used_corpora_union, "bounded-exhaustive", lambda tier: [{"tasks": 2}, {"tasks": 3}], reads=READS + [loader.used_corpora],
+            bounds={"bulk tasks": "2..3 (one sequential, the rest in a parallel element), corpora per task from A / B / A+B / C, optional index filter",
+                    "operation names": "all inline operations share the default name, or distinct names"},
+            doc="which corpora and document sets preparation covers"),
     Harness("bundled", bundled, "symbolic", lambda tier: [{}], reads=READS, stubs=FS_STUB, doc="bundled document sets"),
     Harness("decompress_dispatch", decompress_dispatch, "symbolic", lambda tier: [{"ext": i} for i in range(len(EXTS))], reads=READS,
             stubs=["external decompressors (subprocess.run): succeed or fail after partial output", "bz2/gzip/zstd/zip/tar readers: readable or corrupt archive", "open()"],
